@@ -90,10 +90,10 @@ def load():
 SHARE = [
     (r"^c07_settings$", ["C16"]),
     (r"^c04_close_(pendingack|highpubrel)$", ["C06", "C15"]),
-    (r"^c15_close_current_k[123]_", ["C04"]),
-    (r"^c15_close_current_k2_preservenothing_q2$", ["C07"]),
+    (r"^c04_current_k[0145]_preservenothing_q[12]$", ["C15"]),
+    (r"^c04_current_k0_preserveacknowledged_q0$", ["C15"]),
+    (r"^c04_current_k0_preserveall_q1$", ["C15", "C10"]),
     (r"^c03_reset_for_new_connection$", ["C11", "C07"]),
-    (r"^c15_close_current_k0_preserveall_q2$", ["C10"]),
     (r"^c15_session_absent_", ["C04", "C06"]),
     (r"^c08_mirror_pub_(user|resubmit)_p2s0$", ["C09", "C10"]),
     (r"^c08_mirror_pub_high_p0s0$", ["C07", "C10"]),
@@ -115,7 +115,7 @@ SHARE = [
     (r"^c18_deadline$", ["C11"]),
     (r"^c19_step_(nojitter|uniform)$", ["C11"]),
     (r"^c08_timers_r2_user$", ["C18", "C14"]),
-    (r"^c01_ack_(pubrec_fail_q2|pubcomp_q2_released|pubcomp_q2_early)$", ["C04"]),
+    (r"^c01_ack_(pubcomp_q2_released|pubcomp_q2_early)$", ["C04"]),
     (r"^c18_ack_timeouts_fire$", ["C08"]),
     (r"^c15_submit_publish_q0$", ["C10"]),
     (r"^c16_static_publish_props$", ["C04"]),
